@@ -2055,6 +2055,24 @@ pub const TAGS_SYNC: &[&str] = &[
     "term_result",
 ];
 
+pub const TAGS_SYNC_BIG: &[&str] = &[
+    "sync_init", "sync_monotone", "sync_spurious", "sync_before_done", "sync_extra", "sync_missing", "step_time", "oos_code_ran",
+    "handler_time", "time_read", "init_missing", "report_exact", "error_class",
+];
+
+fn c18_big() -> Vec<Scenario> {
+    // 300 and 700 models, each reading the time in init and arming an event on itself.
+    [300usize, 700]
+        .iter()
+        .map(|n| {
+            let nodes: Vec<NodeSpec> = (0..*n)
+                .map(|i| NodeSpec::new(&format!("m{}", i), 2).init(vec![Op::ReadTime, sched_self(SKind::Once, When::Rel(1), 2, 0)]).script(2, vec![Op::ReadTime]))
+                .collect();
+            scn(format!("many_models/{}", n), &Arc::new(BenchSpec::new(nodes)), vec![Cmd::Step, Cmd::Step])
+        })
+        .collect()
+}
+
 pub const TAGS_SYNC_AND_TIME: &[&str] = &[
     "sync_init", "sync_monotone", "sync_spurious", "sync_before_done", "sync_extra", "sync_missing", "step_time",
     "sched_validation", "pending_not_future", "sched_missed", "sched_wrong_time", "time_backwards", "cmd_time",
@@ -2092,6 +2110,9 @@ pub fn c18(tier: &str) -> Vec<Family> {
             (1_000, Some(1_000), "equal"),
             (5_000, None, "no_tolerance"),
             (500, Some(1_000), "below"),
+            // The largest lag a clock can report (Duration::MAX), with the largest tolerance and without any.
+            (u64::MAX, None, "max_no_tolerance"),
+            (u64::MAX, Some(u64::MAX - 1), "max_above"),
         ] {
             let mut answers = vec![None; pos];
             answers.push(Some(lag));
@@ -2140,6 +2161,10 @@ pub fn c18(tier: &str) -> Vec<Family> {
         Family::new("clock_gating", TAGS_SYNC, sc).cap(5_000),
         Family::new("scheduling_clock", TAGS_SYNC_AND_TIME, sc2).cap(5_000),
         Family::new("clock_gating@-1s", TAGS_SYNC, thin).cap(5_000).epoch(-1),
+        // Many models on the real multi-threaded executor: no init code before the start-time
+        // synchronisation, no model code of a time step before its synchronisation.
+        Family::new("many_models_mt2", TAGS_SYNC_BIG, c18_big()).uncontrolled(2, 2).hang_violation(),
+        Family::new("many_models_mt4", TAGS_SYNC_BIG, c18_big()).uncontrolled(4, 2).hang_violation(),
     ]
 }
 
